@@ -24,8 +24,15 @@ Definition run_case (c : list (Q * Q) * (list (list Z) * list (list Z)) * (list 
 """
 TOL = Fraction(1, 10 ** 8)
 
-FN = ["john", "jon", "mary", "maria", "james", "jame", "anna", "ana", "peter", "petr", "none", "nona"]
-SN = ["smith", "smyth", "jones", "jonse", "brown", "browne", "taylor", "tailor", "none"]
+FN = ["john", "jon", "mary", "maria", "james", "jame", "anna", "ana", "peter", "petr", "none", "nona", "martha", "marhta", "dixon", "dicksonx",
+      "dwayne", "duane"]
+SN = ["smith", "smyth", "jones", "jonse", "brown", "browne", "taylor", "tailor", "none", "brain", "briean", "martha", "marhata", "ca", "abc",
+      "badc", "acbd"]
+# metric-distinguishing twins: restricted (OSA) vs unrestricted Damerau-Levenshtein differ on them (3 vs 2, 4 vs 3), Levenshtein vs
+# Damerau on the transpositions, Jaro vs Jaro-Winkler on the common prefixes - a wrong function binding on one backend becomes a
+# gamma difference against the DuckDB reference
+TWINS = {"brain": "briean", "martha": "marhata", "ca": "abc", "badc": "acbd", "jones": "jonse", "smith": "smtih", "marhta": "martha",
+         "dixon": "dicksonx", "dwayne": "duane"}
 CITY = ["london", "leeds", "york", "bath", "hull"]
 DOB = ["1990-01-01", "1990-01-02", "1985-05-05", "1971-12-30", "2001-07-07", "1990-02-01", "1994-06-30", "1990-13-01"]
 AMT = [10.0, 10.5, 20.0, 100.0, 95.0, 12.25, 0.0, -5.0]
@@ -53,6 +60,9 @@ def gen_pipeline(rng, idx, backends):
         rows = []
         for _ in range(rng.randint(18, 30)):
             r = dict(rng.choice(base))
+            for col in ("first_name", "surname"):
+                if r[col] in TWINS and rng.random() < 0.4:
+                    r[col] = TWINS[r[col]]
             for col, pool in (("first_name", FN), ("surname", SN), ("city", CITY), ("dob", DOB), ("amount", AMT)):
                 x = rng.random()
                 if x < 0.15:
@@ -189,6 +199,15 @@ def build_settings(spec):
                            max_iterations=6, em_convergence=0.0001)
 
 
+def shared_settings(case):
+    """one SettingsCreator per pipeline, used for the DuckDB reference first and then for every other backend (creator reuse across
+    dialects).  Not for string date-difference levels: AbsoluteTime/DateDifferenceLevel.create_sql re-wraps its column expression on
+    every call (DESIGN 7.10, C17's subject), so those get fresh creators."""
+    if any(c in ("date_diff", "dob_cmp") for c in case["spec"]["comparisons"]):
+        return None
+    return build_settings(case["spec"])
+
+
 def frames(case):
     out = []
     for rows in case["tables"]:
@@ -209,14 +228,16 @@ def frames(case):
     return out
 
 
-def run_backend(case, backend, api=None):
-    """returns a canonical result dict; raises on engine errors"""
+def run_backend(case, backend, api=None, settings=None):
+    """returns a canonical result dict; raises on engine errors.  `settings`: a SettingsCreator (and so comparison / level /
+    blocking-rule creator objects) that was ALREADY used for another dialect in this process - creators must not remember
+    anything dialect-specific between uses"""
     from splink import block_on
     from splink.blocking_analysis import count_comparisons_from_blocking_rule, cumulative_comparisons_to_be_scored_from_blocking_rules_data
     spec = case["spec"]
     dfs = frames(case)
     aliases = ["ta", "tb"][: len(dfs)]
-    lk = su.linker(dfs, build_settings(spec), backend, aliases=aliases if len(dfs) > 1 else None, api=api)
+    lk = su.linker(dfs, settings if settings is not None else build_settings(spec), backend, aliases=aliases if len(dfs) > 1 else None, api=api)
     res = {}
     lk.training.estimate_probability_two_random_records_match([block_on(*r) for r in spec["prior_rules"]], recall=spec["recall"])
     res["prior_after_estimate"] = lk.misc.save_model_to_json()["probability_two_random_records_match"]
@@ -379,15 +400,16 @@ def correspondence(ctx: Ctx, backends):
         cases = [gen_pipeline(ctx.rng, i, backends) for i in range(n)]
     terms, metas = [], []
     for case in cases:
+        shared = shared_settings(case)
         try:
-            ref = run_backend(case, "duckdb")
+            ref = run_backend(case, "duckdb", settings=shared)
         except Exception as e:
             ctx.hist("pipeline_reference_error", type(e).__name__)
             ctx.log(f"pipeline {case['idx']} fails on the DuckDB reference: {type(e).__name__}: {str(e)[:200]}")
             # the same pipeline must fail on the other backends too (same exception class is not required)
             for b in backends[1:]:
                 try:
-                    oth = run_backend(case, b)
+                    oth = run_backend(case, b, settings=shared)
                     if "logarithm of zero" in str(e) and (underflow_range(oth) or any(x is not True for x in oth["em_sessions"])):
                         # same Appendix A hazard as below: which statement first meets the exact 0 produced by underflow is engine noise
                         ctx.hist("skipped_underflow_degenerate_em", b)
@@ -400,7 +422,7 @@ def correspondence(ctx: Ctx, backends):
             continue
         for b in backends[1:]:
             try:
-                oth = run_backend(case, b)
+                oth = run_backend(case, b, settings=shared)
             except Exception as e:
                 ctx.violation(f"pipeline succeeds on duckdb but raises on {b}: {type(e).__name__}: {str(e)[:200]}",
                               {"case": case, "implementation": f"{b}: {e!r}"[:400], "specification": "duckdb: success"},
